@@ -71,6 +71,51 @@ def gen_cases(cls, rng, tier):
     return cases
 
 
+class RefGraph:
+    """reference multigraph following the contract of C03 (only used to decide 'the yielded edge exists now')"""
+    def __init__(self, cls):
+        self.cls = cls
+        self.keys = []
+        self.edges = []     # (u, v, e) in insertion order
+
+    def apply(self, t):
+        op = t[0]
+        if op == "new":
+            self.keys.append(int(t[1]))
+        elif op == "con":
+            self.edges.append((int(t[1]), int(t[2]), int(t[3])))
+        elif op == "try":
+            u, v = int(t[1]), int(t[2])
+            has = any((a == u and b == v) or (self.cls == "U" and a == v and b == u) for (a, b, _) in self.edges)
+            if not has:
+                self.edges.append((u, v, int(t[3])))
+        elif op == "dis":
+            u, k = int(t[1]), int(t[2])
+            if k not in self.keys:
+                return
+            v = self.keys.index(k)
+            cand = None
+            if self.cls == "U":
+                cand = next((i for i, (a, b, _) in enumerate(self.edges) if a == v and b == u), None)
+            if cand is None:
+                cand = next((i for i, (a, b, _) in enumerate(self.edges) if a == u and b == v), None)
+            if cand is not None:
+                self.edges.pop(cand)
+        elif op == "iso":
+            u = int(t[1])
+            self.edges = [(a, b, e) for (a, b, e) in self.edges if a != u and b != u]
+
+    def has(self, s, t, e, reversed_=False):
+        if s not in self.keys or t not in self.keys:
+            return False
+        si, ti = self.keys.index(s), self.keys.index(t)
+        if reversed_:
+            si, ti = ti, si
+        if (si, ti, e) in self.edges:
+            return True
+        return self.cls == "U" and (ti, si, e) in self.edges
+
+
 def oracle_mut(case, obs):
     if obs == "HANG":
         return "loop/traversal with a closure that adds at most a few edges never returns (hang/deadlock)"
@@ -92,10 +137,17 @@ def oracle_mut(case, obs):
         if u < len(keys) and v < len(keys):
             everk.add((keys[u], keys[v], e))
             everk.add((keys[v], keys[u], e))
+    ref = RefGraph(case.cls)
+    pending = []     # (invocation index, op tokens)
     for (si, text) in obs:
         st = case.steps[si]
+        t = st.split()
         if text.startswith("panic"):
             return "step %d `%s` panicked" % (si, st)
+        if t[0] in ("new", "con", "try", "dis", "iso"):
+            ref.apply(t)
+        elif t[0] == "scr":
+            pending.append((int(t[1]), t[2:]))
         if st.startswith(("loop", "srch")):
             o = sc.parse_obs(text)
             if o["log"] and any(x.startswith("panic") for x in o["log"]):
@@ -103,6 +155,19 @@ def oracle_mut(case, obs):
             for e in (o["trace"] or []):
                 if e not in everk:
                     return "step %d `%s`: yielded %s which is not an edge that ever existed" % (si, st, e)
+            # every yielded edge must exist at the moment it is yielded: replay the scripted operations on a reference graph
+            rev = (t[0] == "srch" and case.cls == "D" and t[4] == "1")
+            for j, (a, b, e) in enumerate(o["trace"] or []):
+                if not ref.has(a, b, e, reversed_=rev):
+                    return "step %d `%s`: invocation %d was handed %s, which does not exist at that moment (the closure's earlier operations removed or replaced it)" % (si, st, j, (a, b, e))
+                for (k, op) in pending:
+                    if k == j:
+                        ref.apply(op)
+            n_inv = len(o["trace"] or [])
+            for (k, op) in pending:
+                if k >= n_inv:
+                    pass   # never reached
+            pending = []
         if st == "snap":
             nodes = nc.parse_snap(text)
             if nodes is None:
